@@ -43,7 +43,7 @@ def main():
     rows = []
     for seed in sorted(os.listdir("/verif/seeded")):
         d = os.path.join("/verif/seeded", seed)
-        if not os.path.isfile(os.path.join(d, "patch.diff")):
+        if seed == "retired" or not os.path.isfile(os.path.join(d, "patch.diff")):
             continue
         mp = os.path.join(d, "meta.json")
         meta = json.load(open(mp))
